@@ -291,14 +291,19 @@ def big_round_trip(ctx):
     from concurrent.futures import ThreadPoolExecutor
     sizes = sorted(set([2**k + 1 for k in range(17, 26)] + near([2**20, 2**24], 1, 0, 2**40) + [10**7, 2**24 + 4096, 20 * 2**20]))
     if ctx.tier == 'thorough':
-        sizes += near([2**k for k in range(17, 26)], 1, 0, 2**40) + [2**25 + 2**24 + 7, 2**26 + 1, 2**27, 2**27 + 1]
+        sizes += near([2**k for k in range(17, 26)], 1, 0, 2**40) + [2**25 + 2**24 + 7, 2**26 + 1]
         sizes = sorted(set(sizes))
     kinds = ('bytes', 'buffer', 'plain')
     ops = [f'cbor.rt.big {c} {n} {kinds[(i + j) % 3]}' for i, n in enumerate(sizes) for j, c in enumerate('bt')]
     nchunk = 6          # (a batch of fewer than 200 ops runs in one harness process: split by hand, large and small sizes mixed)
     chunks = [ops[k::nchunk] for k in range(nchunk)]
-    with ThreadPoolExecutor(nchunk) as tp:
-        results = list(tp.map(ctx.go, chunks))
+    goenv = ctx.goenv      # ~1 s per 32 MiB on an idle machine; a loaded machine must not turn the watchdog into a verdict
+    ctx.goenv = dict(goenv, VERIF_OP_TIMEOUT_MS=str(max(60000, int(goenv.get('VERIF_OP_TIMEOUT_MS', '4000')))))
+    try:
+        with ThreadPoolExecutor(nchunk) as tp:
+            results = list(tp.map(ctx.go, chunks))
+    finally:
+        ctx.goenv = goenv
     for ch, rs in zip(chunks, results):
         for op, r in zip(ch, rs):
             ctx.records.append((op, r or 'crash', 'same'))
